@@ -1,12 +1,55 @@
 /-
-  C03 — control-flow reconstruction restores the source nesting exactly (spec-layer statements).
+  C03 — control-flow reconstruction restores the source nesting exactly.
+  Spec-layer statements: the structured layout `layoutStmts` (compileStructured) and the nesting of its jump targets.
+  The reconstruction itself (`loop_detection.py`) enters as an abstract `decompile`; the model is agent-lscr's (lean/Drx/Lscr*).
 -/
 import Drx.Spec.Compile
+import Drx.Spec.LingoRead
 import DrxProofs.SpecCompile
+import DrxProofs.SpecLayout
 namespace DrxProps.C03
 open Drx Drx.Spec
 
-/-- encoded length = sum of instruction sizes: what every jump offset of `layoutStmts` (compileStructured) is computed from -/
-theorem encoded_length (is : List Instr) : (encodeInstrs is).length = codeSize is := encodeInstrs_length is
+/-- The property at full strength: every script the scheme can compile (any nesting of if / if-else / repeat while / repeat with /
+    repeat with … in / exit repeat whose loop bodies fit the one-byte back jump — `compile` rejects the others) decompiles to text
+    that reads back as the same tree: every statement once, in order, in the same construct, with the same condition, loop variable
+    and bounds; in particular no raw `jz` / `jump` pseudo-statement is left (it would read as a call that is not in the source). -/
+def C03_full (decompile : Bytes → Bytes → Option (List Char)) : Prop :=
+  ∀ (o : Options) (s : Script) (c : Compiled), compile o s = .ok c →
+    ∃ text, decompile c.lscr c.lnam = some text ∧ readLingo text = some s
+
+/-- every jump offset of the layout is computed from sizes: the laid-out code of a statement list has exactly the size the
+    scheme assumes (`CStmt.sizes`), for every control skeleton and every `toEnd` -/
+theorem layout_size (ss : List CStmt) (te : Option Nat) : codeSize (layoutStmts te ss) = CStmt.sizes ss :=
+  layoutStmts_size ss te
+
+/-- … and encoding does not change it -/
+theorem layout_encoded_size (ss : List CStmt) (te : Option Nat) : (encodeInstrs (layoutStmts te ss)).length = CStmt.sizes ss := by
+  rw [encodeInstrs_length, layoutStmts_size]
+
+/-- 7(d) properly nested jump targets, by induction over the program: in the layout of ANY control skeleton (unbounded depth and
+    width) whose straight-line fragments contain no jumps, every forward jump (`93` unconditional, `95` conditional, 2-byte offset
+    relative to the opcode's own address) lands either on a statement boundary of the list it belongs to — the start of a
+    statement at some nesting level or the end of the list — or, when the list is (part of) a loop body and the jump is an
+    `exit repeat`, on the address after that loop's back jump (`o + size + d` for `toEnd = some d`). -/
+theorem jump_targets_nested (ss : List CStmt) (te : Option Nat) (o : Nat) (h : CStmt.StraightL ss) :
+    ∀ p ∈ fwdJumps (layoutStmts te ss) o, p.2 ∈ bndStmts o ss ∨ ∃ d, te = some d ∧ p.2 = o + CStmt.sizes ss + d :=
+  fwd_stmts ss te o h
+
+/-- at the top level of a handler (`toEnd = none`) every forward jump lands on a statement boundary inside the handler -/
+theorem jump_targets_nested_top (ss : List CStmt) (o : Nat) (h : CStmt.StraightL ss) :
+    ∀ p ∈ fwdJumps (layoutStmts none ss) o, p.2 ∈ bndStmts o ss := by
+  intro p hp
+  rcases fwd_stmts ss none o h p hp with h1 | ⟨d, hd, _⟩
+  · exact h1
+  · cases hd
+
+/-- non-vacuity: `repeat while c / if d then exit repeat / s / end repeat ; t` — two forward jumps out of the loop, both on the
+    boundary after the back jump -/
+example :
+    let c := [Instr.op2 0x4c 0]; let d := [Instr.op2 0x4c 6]; let s := [Instr.op2 0x41 1, .op2 0x42 1, .op2 0x57 0]
+    let prog := [CStmt.loop [] c [] [.ifThen d [.exitRepeat] [], .code s] [] [], .code s]
+    CStmt.StraightL prog ∧ fwdJumps (layoutStmts none prog) 0 = [(2, 21), (7, 13), (10, 21)] ∧ bndStmts 0 prog = [0, 0, 5, 10, 13, 13, 19, 21, 21, 27] := by
+  decide +kernel
 
 end DrxProps.C03
